@@ -11,8 +11,8 @@ import os
 import vf
 
 IMPORTS = ["From ZV Require Import Lib.Base Model.Query Model.Parser."]
-RULE = ("regression corpus + ALL strings of <= 3 (thorough: 4) symbols over the 17-symbol alphabet "
-        "( ) \" \\ - : space or a f: . * B case:yes type:repo meta.k: newline  (finite sweep) + random: queries generated from the "
+RULE = ("regression corpus + ALL strings of <= 3 (thorough: 4) symbols over the 12-symbol alphabet "
+        "( ) \" \\ - : space or a f:  case:yes type:repo meta.k:  (finite sweep) + random: queries generated from the "
         "EBNF of doc/query_syntax.md, the same with one random edit, and 4-12 random symbols incl. invalid UTF-8 / NUL / tab / newline; "
         "distinct by input string; non-trivial = the token scan yields >= 2 tokens. Second harness (oracle only): parsed queries searched/"
         "listed on an in-memory shard and sent through the JSON API, plus malformed / wrongly typed JSON bodies.")
@@ -74,13 +74,13 @@ def run(ctx):
         broken.append("proof obligations of Props/C07.v do not check: %s" % (proofs.get("broken_files") or proofs.get("nonstd_axioms") or proofs["log"][-1200:]))
 
     # ---- harness A: package query (correspondence + oracle)
-    ha = vf.go_harness(ctx, "query", "TestVerifC07$", ["query/zz_verif_c07_test.go"], ctx.n(900, 12000),
+    ha = vf.go_harness(ctx, "query", "TestVerifC07$", ["query/zz_verif_c07_test.go"], ctx.n(700, 6000),
                        timeout=600 if ctx.tier == "quick" else 3000, out_name="outA.jsonl")
     if ha["rc"] != 0:
         broken.append("harness TestVerifC07 failed (rc=%d): %s" % (ha["rc"], ha["log"][-1500:]))
     cases = [r for r in ha["records"] if r.get("kind") == "case"]
     # ---- harness B: package index (oracle: search / list / JSON API)
-    hb = vf.go_harness(ctx, "index", "TestVerifC07b$", ["index/zz_verif_c07b_test.go"], ctx.n(400, 6000),
+    hb = vf.go_harness(ctx, "index", "TestVerifC07b$", ["index/zz_verif_c07b_test.go"], ctx.n(300, 4000),
                        timeout=600 if ctx.tier == "quick" else 3000, out_name="outB.jsonl")
     if hb["rc"] != 0:
         broken.append("harness TestVerifC07b failed (rc=%d): %s" % (hb["rc"], hb["log"][-1500:]))
